@@ -57,13 +57,17 @@ bool exec_forms(ExecCtx &c) {
               if (distinct && out.status == ST_OK) {
                 sim::Exempt e;
                 try {
-                  Y y2(Support(x.getSupport().getGrid(), y.getSupport().getStartIndex(),
-                               y.getSupport().getEndIndex()),
+                  using X = std::decay_t<decltype(x)>;
+                  const Grid &gx = x.getSupport().getGrid();
+                  X xf(Support(gx, x.getSupport().getStartIndex(), x.getSupport().getEndIndex()), x.getCoefficients());
+                  Y yo(Support(y.getSupport().getGrid(), y.getSupport().getStartIndex(), y.getSupport().getEndIndex()),
                        y.getCoefficients());
-                  uint64_t h2 = 0;
-                  with_plain_bilin(r, s, [&](auto &&bf) { h2 = bf(x, y2).bits(); });
+                  Y ys2(Support(gx, y.getSupport().getStartIndex(), y.getSupport().getEndIndex()), y.getCoefficients());
+                  uint64_t h1 = 0, h2 = 0;
+                  with_plain_bilin(r, s, [&](auto &&bf) { h1 = bf(xf, yo).bits(); });
+                  with_plain_bilin(r, s, [&](auto &&bf) { h2 = bf(xf, ys2).bits(); });
                   probe(PR_TWIN_COMPARED);
-                  if (h2 != got)
+                  if (h1 != h2)
                     add_violation(c, "C08", "equal-grid-result-differs", "BilinearForm", "BilinearForm::evaluate");
                 } catch (const std::exception &) {
                 }
